@@ -1,5 +1,6 @@
 SPECIFICATION Spec
 CONSTANTS
   EmitAll = TRUE
+  PoolSel = "all"
 INVARIANTS Laws Emit
 CHECK_DEADLOCK FALSE
